@@ -221,7 +221,7 @@ def _real_services():
     return a, b
 
 
-@harness(props=["C06"], strength="B", family=lambda t, s: [{"n": n} for n in range(0, 6)],
+@harness(props=["C06", "C05"], strength="B", family=lambda t, s: [{"n": n} for n in range(0, 6)],
          bound="two real services whose requests share the constant prefix 0x22 (3 bytes with a reserved tail / 4 "
          "bytes), a positive response and a negative response with an NRC-CONST followed by an unpositioned parameter; "
          "message of n = 0..5 arbitrary bytes; values of the own encodings symbolic",
@@ -242,6 +242,10 @@ def real_descriptions_below_a_real_layer(n):
         msgs = layer.decode(message)
     except DecodeError:
         msgs = []
+    except Exception:
+        H.check("C05,C06:only-decode-errors-escape-the-layer", False)
+        return
+    H.check("C05,C06:only-decode-errors-escape-the-layer", True)
     # (decode() considers requests and responses alike; the coding object tells which description matched)
     want = {
         "rq_short": n >= 3 and message[0] == 0x22,
